@@ -77,7 +77,23 @@ _COUNTER = itertools.count()
 TABLE = {}  # token -> {run name: [(start, end, array)]}
 ITEMSIZE = 32
 SUP = "_sup"
-STEER = not os.environ.get("C14_NO_STEER")  # development switch: look at the recorded findings unsteered
+# Steering (turning a failure that the spy attributes to a recorded finding into `Excluded`) applies ONLY to findings
+# whose status in known_findings.json is "known".  All of C14's findings are fixed in /repo, so nothing is steered:
+# a fixed entry suppresses nothing, and a regression of one of those shapes is a violation like any other.
+def _known_c14():
+    from vf import findings
+    return {e["finding"] for e in findings.load() if e.get("status") == "known"}
+
+
+KNOWN = _known_c14()
+
+
+class _Steer:
+    def __bool__(self):
+        return bool(KNOWN) and not os.environ.get("C14_NO_STEER")
+
+
+STEER = _Steer()
 
 
 # ----------------------------------------------------------------------------------------------------
@@ -602,7 +618,7 @@ def run_case(d):
 def fail(d, clause, detail, run=None, text=""):
     """Raise for a hard failure: Excluded when the spy attributes it to a recorded finding (and steering is on)."""
     f = attributable(clause, run, text or str(detail))
-    if f and STEER and not d.get("nosteer"):
+    if f and f in KNOWN and STEER and not d.get("nosteer"):
         raise Excluded(f)
     raise Violation(clause, tags() + (detail if isinstance(detail, str) else repr(detail)) + f" {json.dumps(d)}")
 
@@ -644,7 +660,7 @@ def _run(d, token, path):
         if exc is not None:
             text = " | ".join(f"{type(e).__name__}: {e}" for e in exception_chain(exc))
             f = attributable(what + ".raised:" + type(_root(exc)).__name__, None, text)
-            if f and STEER and not d.get("nosteer"):
+            if f and f in KNOWN and STEER and not d.get("nosteer"):
                 raise Excluded(f)
             raise Violation(what + ".raised:" + type(_root(exc)).__name__,
                             tags() + text[:1500] + f" {json.dumps(d)}") from exc
@@ -672,8 +688,10 @@ def _run(d, token, path):
         if list(spec) != want:
             # F1430: the run document lists the subruns in NAME order, not in order of run start
             SPY["f1430"] = f"{list(spec)} instead of {want}"
-            if STEER and not d.get("nosteer"):
+            if "F1430" in KNOWN and STEER and not d.get("nosteer"):
                 raise Excluded("F1430")
+            # (the order of the spec is an implementation detail; what the property demands - rows in order of run
+            # start - is decided by the queries that follow)
 
     def sub_arrays(ctx, members):
         out = {}
@@ -794,7 +812,7 @@ def _run(d, token, path):
     # ---- deferred bookkeeping violations -----------------------------------------------------------
     if P.items:
         known = [attributable(c, r, det) for c, det, r in P.items]
-        if all(known) and STEER and not d.get("nosteer"):
+        if all(known) and all(k in KNOWN for k in known) and STEER and not d.get("nosteer"):
             raise Excluded(known[0])
         i = next((n for n, f in enumerate(known) if not f), 0)
         clause, det, r = P.items[i]
